@@ -32,7 +32,7 @@ theorem rinv_step (F : RFacts) (s : RState) (i : Nat) (h : RInv F s) : RInv F (r
   have hni := hn i
   unfold rstep
   generalize hl : s.loc i = l at *
-  obtain ⟨arg, inv, todo, obs, hits, err⟩ := l
+  obtain ⟨arg, inv, todo, obs, hits, err, cells⟩ := l
   cases todo with
   | nil => exact ⟨hg, hn⟩
   | cons op rest =>
@@ -68,6 +68,14 @@ theorem rinv_step (F : RFacts) (s : RState) (i : Nat) (h : RInv F s) : RInv F (r
       split <;> (apply frame _ (by simpa [RState.setLoc] using hg) (by simp [RState.setLoc]) (by intro j hj; simp [RState.setLoc, hj]))
     | park x => exact absurd hop (by simp [ROp.Safe])
     | unpark x => exact absurd hop (by simp [ROp.Safe])
+    | setCtx c =>
+      have hc : F.ctxShared c = false := hop
+      simp only [hc]
+      apply frame _ (by simpa [RState.setLoc] using hg) (by simp [RState.setLoc]) (by intro j hj; simp [RState.setLoc, hj])
+    | getCtx c =>
+      have hc : F.ctxShared c = false := hop
+      simp only [hc]
+      apply frame _ (by simpa [RState.setLoc] using hg) (by simp [RState.setLoc]) (by intro j hj; simp [RState.setLoc, hj])
 
 /-- under the invariant a step of any thread leaves every thread's sequential response unchanged -/
 theorem solo_step (F : RFacts) (s : RState) (i j : Nat) (h : RInv F s) :
@@ -76,7 +84,7 @@ theorem solo_step (F : RFacts) (s : RState) (i j : Nat) (h : RInv F s) :
   have hni := hn i
   unfold rstep
   generalize hl : s.loc i = l at *
-  obtain ⟨arg, inv, todo, obs, hits, err⟩ := l
+  obtain ⟨arg, inv, todo, obs, hits, err, cells⟩ := l
   cases todo with
   | nil => rfl
   | cons op rest =>
@@ -100,6 +108,20 @@ theorem solo_step (F : RFacts) (s : RState) (i j : Nat) (h : RInv F s) :
         simp [RState.setLoc, soloResponse, hl, soloObs]
       | park x => exact absurd hop (by simp [ROp.Safe])
       | unpark x => exact absurd hop (by simp [ROp.Safe])
+      | setCtx c =>
+        have hc : F.ctxShared c = false := hop
+        simp only [hc]
+        have hfun : (fun y => List.lookup y ((c, arg) :: cells)) = fun y => if y = c then some arg else List.lookup y cells := by
+          funext y
+          by_cases hy : y = c
+          · subst hy; simp [List.lookup]
+          · have : (y == c) = false := by simpa using hy
+            simp [List.lookup, this, hy]
+        simp [RState.setLoc, soloResponse, hl, soloObs, hfun]
+      | getCtx c =>
+        have hc : F.ctxShared c = false := hop
+        simp only [hc]
+        simp [RState.setLoc, soloResponse, hl, soloObs]
     · cases op <;> simp only <;> (try split) <;> simp [RState.setLoc, RState.setTable, hj]
 
 theorem rinv_run (F : RFacts) (sched : List Nat) : ∀ s, RInv F s → RInv F (rrun F s sched) := by
@@ -149,7 +171,7 @@ theorem graph_step (F : RFacts) (hF : ∀ c, F.order c = .afterInit) (s : RState
     ∀ k v, (rstep F s i).table k = some v → v = .full := by
   unfold rstep
   generalize s.loc i = l
-  obtain ⟨arg, inv, todo, obs, hits, err⟩ := l
+  obtain ⟨arg, inv, todo, obs, hits, err, cells⟩ := l
   cases todo with
   | nil => exact hg
   | cons op rest =>
@@ -169,6 +191,8 @@ theorem graph_step (F : RFacts) (hF : ∀ c, F.order c = .afterInit) (s : RState
     | readErr => simp only; split <;> simpa [RState.setLoc] using hg
     | park x => simpa [RState.setLoc] using hg
     | unpark x => simpa [RState.setLoc] using hg
+    | setCtx c => simp only; split <;> simpa [RState.setLoc] using hg
+    | getCtx c => simp only; split <;> simpa [RState.setLoc] using hg
 
 theorem graph_run (F : RFacts) (hF : ∀ c, F.order c = .afterInit) (sched : List Nat) :
     ∀ s, (∀ k v, s.table k = some v → v = .full) →
@@ -185,7 +209,7 @@ theorem obsfull_step (F : RFacts) (s : RState) (i j : Nat)
     ObsFull ((rstep F s i).loc j) := by
   unfold rstep
   generalize hl : s.loc i = l at *
-  obtain ⟨arg, inv, todo, obs, hits, err⟩ := l
+  obtain ⟨arg, inv, todo, obs, hits, err, cells⟩ := l
   cases todo with
   | nil => exact ho
   | cons op rest =>
@@ -216,6 +240,12 @@ theorem obsfull_step (F : RFacts) (s : RState) (i j : Nat)
         split <;> (intro k' v' hm; simp [RState.setLoc] at hm; exact ho k' v' hm)
       | park x => intro k' v' hm; simp [RState.setLoc] at hm; exact ho k' v' hm
       | unpark x => intro k' v' hm; simp [RState.setLoc] at hm; exact ho k' v' hm
+      | setCtx c =>
+        simp only
+        split <;> (intro k' v' hm; simp [RState.setLoc] at hm; exact ho k' v' hm)
+      | getCtx c =>
+        simp only
+        split <;> (intro k' v' hm; simp [RState.setLoc] at hm; exact ho k' v' hm)
     · have : (rstep F s i).loc j = s.loc j := by
         unfold rstep; rw [hl]
         cases op <;> simp only <;> (try split) <;> simp [RState.setLoc, RState.setTable, hj]
@@ -236,7 +266,7 @@ theorem todo_step (F : RFacts) (s : RState) (i : Nat) :
     ((rstep F s i).loc i).todo = (s.loc i).todo.tail := by
   unfold rstep
   generalize hl : s.loc i = l
-  obtain ⟨arg, inv, todo, obs, hits, err⟩ := l
+  obtain ⟨arg, inv, todo, obs, hits, err, cells⟩ := l
   cases todo with
   | nil => simp [hl]
   | cons op rest => cases op <;> simp only <;> (try split) <;> simp [RState.setLoc, RState.setTable]
